@@ -3419,9 +3419,10 @@ class Parser:
             return None
 
         this = self._parse_table(schema=True)
+        expression: exp.Var | exp.PartitionBoundSpec | None = None
 
         if self._match(TokenType.DEFAULT):
-            expression: exp.Var | exp.PartitionBoundSpec = exp.var("DEFAULT")
+            expression = exp.var("DEFAULT")
         elif self._match_text_seq("FOR", "VALUES"):
             expression = self._parse_partition_bound_spec()
         else:
